@@ -196,9 +196,13 @@ def loop_progress(F, S, fn):
         if nd["k"] not in ("DoStmt", "WhileStmt", "ForStmt") or "cond" not in nd:
             continue
         ct = fn.term(nd["cond"])
-        if not (ct[0] == "op" and ct[1] in ("<", "<=", "!=") and ct[2][0] == "var"):
+        if not (ct[0] == "op" and ct[1] in ("<", "<=", "!=")):
             continue
         cur = ct[2]
+        if cur[0] == "op" and cur[1] == "+" and cur[2][0] == "var":
+            cur = cur[2]
+        if cur[0] != "var":
+            continue
         body = set(fn.subtree(nd["body"]))
         ups = [x for x in body if fn.n(x)["k"] in ("CompoundAssignOperator", "BinaryOperator", "UnaryOperator")
                and fn.n(x).get("op") in ("+=", "=", "++") and fn.term(fn.kids(x)[0]) == cur]
